@@ -16,6 +16,10 @@ directory.  The corpus (run first) holds the escapes repaired by /repo commits a
 becc08b (key side); if one comes back it is an ordinary violation.
 Sequence cases (one LocalStorage instance, several steps with layout mutations in between) exercise
 state carried by the instance: the model is stateless, so the instance must behave as a fresh one.
+Layout-edit kinds `rmroot` / `rmparent` remove the storage directory (alone / together with its parent directory) between
+two steps; exists / file_handle in every mode / delete / find_keys follow on the same instance. The path model is asked
+about these steps like about any other (a file tree in which the storage path does not exist: it predicts the
+FileNotFoundError and no effect); the snapshot monitor flags every node created at or above the storage directory's place.
 """
 import json
 import os
@@ -79,6 +83,18 @@ CORPUS += [
           dict(mut=[['link', 'store/newkey', '{SB}/outside/dir']], op='fh', key='newkey', fn='deep.txt', mode='w'),
           dict(mut=[], op='exists', key='newkey', fn='', mode='')]),
 ]
+
+# the storage directory disappears under a live instance (alone / together with its parent directory): every later
+# operation may fail, none may create anything at or above the place where the storage directory was
+for _kind in ('rmparent', 'rmroot'):
+    CORPUS.append(_seq(
+        f'storage directory removed ({_kind}) after a write, then every operation',
+        pc.OUTSIDE + [['store/k1', 'd', ''], ['store/k1/data', 'f', 'd']],
+        [dict(mut=[], op='fh', key='k1', fn='data', mode='w'),
+         dict(mut=[[_kind, '', '']], op='exists', key='k1', fn='', mode='')]
+        + [dict(mut=[], op='fh', key=k, fn='data', mode=m) for m in pc.MODES for k in (('k1', 'fresh') if m in 'rw' else ('k1',))]
+        + [dict(mut=[], op='delete', key='k1', fn='', mode=''), dict(mut=[], op='find_keys', key='', fn='', mode=''),
+           dict(mut=[], op='exists', key='fresh', fn='', mode='')]))
 
 
 def run_case(sbx, case, payload=b'W!'):
@@ -177,6 +193,7 @@ def shrink(case, pred):
 
 def explore(seed, n_layouts, ops_per_layout, stats, cases_out):
     rng = random.Random(seed)
+    rng_gone = random.Random(seed * 7 + 1)      # own stream: sequences in which the storage directory is removed
     sbx = pc.Sandbox()
     results = []
     try:
@@ -195,6 +212,13 @@ def explore(seed, n_layouts, ops_per_layout, stats, cases_out):
                 for i, res in enumerate(run_sequence(sbx, seq, payload=b'S%d.%d' % (li, qi))):
                     last = steps[i]
                     # the case of step i = the sequence up to and including it (replayable on its own)
+                    results.append((dict(seq, steps=steps[:i + 1], op=last['op'], key=last['key'], fn=last['fn'],
+                                         mode=last['mode']), res))
+            for qi in range(2):
+                steps = pc.gen_rootgone_sequence(rng_gone, layout)
+                seq = dict(layout=layout, via_link=via_link, gitignore=gi, ctor=ctor, steps=steps)
+                for i, res in enumerate(run_sequence(sbx, seq, payload=b'G%d.%d' % (li, qi))):
+                    last = steps[i]
                     results.append((dict(seq, steps=steps[:i + 1], op=last['op'], key=last['key'], fn=last['fn'],
                                          mode=last['mode']), res))
     finally:
@@ -306,6 +330,10 @@ def run(ctx):
                 dist['seq_steps_after_mutation'] += 1
             for m in case['steps'][-1].get('mut', []):
                 dist['mutations'][m[0]] = dist['mutations'].get(m[0], 0) + 1
+            gone = [m[0] for s in case['steps'] for m in s.get('mut', []) if m[0] in ('rmroot', 'rmparent')]
+            if gone:
+                k = 'steps_after_storage_directory_removed' + ('_with_its_parent' if 'rmparent' in gone else '')
+                dist[k] = dist.get(k, 0) + 1
             if pc.nontrivial(case, set(res.get('links', []))) or (mutated and len(case['steps']) > 1):
                 nontrivial.add(h)
         elif pc.nontrivial(case):
@@ -476,7 +504,9 @@ def run(ctx):
               'adversarial grammar; non-trivial = the key or a filename component is the name of a symlink of the layout, or the '
               'key / filename contains a separator, a dot or a NUL; distinct by (layout, storage path, op, key, filename, mode). '
               'Sequence cases: ONE LocalStorage instance, 2-4 steps, each step = optional layout mutations made by the harness '
-              '(replace a key dir / file by a symlink to outside / a sibling / a loop, remove, recreate as dir or file) + one '
+              '(replace a key dir / file by a symlink to outside / a sibling / a loop, remove, recreate as dir or file; REMOVE THE '
+              'STORAGE DIRECTORY itself, alone or together with its parent directory, followed by exists / file_handle in every '
+              'mode / delete / find_keys) + one '
               'operation, mostly on the same key; every step is an evaluation (snapshot + audit monitors, model asked statelessly '
               'about the layout of that step); such a step is also non-trivial when it follows a mutation on the same instance'),
         samples=samples, violations=out_viol, disagreements=disagreements[:20], distribution=dict(dist, distinct=len(seen), enlarged=enlarged),
